@@ -60,17 +60,18 @@ Fixpoint parse_desc (fuel : nat) (fs : list field) : option (tdesc * list field)
     end
   end.
 
-(* ---- known findings: the selector holds on the expected tree AND the text is exactly what the defect produces;
-   the three defects are matched independently of each other ---- *)
+(* ---- recorded findings 301-303, ALL REPAIRED in /repo (301: 780cc58, 302: eb8c8a0, 303: c24267f): the selector holds on the
+   expected tree AND the text is exactly what the defect produced; they are recognised only so that a regression is reported
+   under its id (a VKnown verdict whose finding has status fixed is an alarm); matched independently of each other ---- *)
 Definition quirk_verdict (e : jexp) (out : list Z) (fallback : verdict) : verdict :=
   let s1 := negb (jexp_finite e) in
   let s2 := has_raw_string e in
   let s3 := has_neg_bytev e in
   let m (a b c : bool) := match qmatch a b c e out with Some [] => true | _ => false end in
-  (* 303 alone (open finding): ONLY the js_conv byte members may deviate, every other member — js_conv strings included —
-     must be the text of the spec *)
+  (* 303 alone (js_conv byte printed as uint8 with ByteAsUint8 off; repaired by /repo c24267f): ONLY the js_conv byte members
+     deviate, every other member — js_conv strings included — must be the text of the spec *)
   if s3 && m false false true then VKnown 303
-  (* 302 / 301 (repaired in /repo): recognised only so that a regression is reported under its id; each is tried with and
+  (* 302 / 301: each is tried with and
      without the other deviations, because they are independent of each other *)
   else if s2 && (m false true false || (s3 && m false true true)) then VKnown 302
   else if s1 && (m true false false || (s3 && m true false true) || (s2 && (m true true false || (s3 && m true true true)))) then VKnown 301
